@@ -15,7 +15,8 @@ RULE = ('well-formed trees: bounded-exhaustive small trees (as C02) under defaul
         'several closes on one triple) under default, AMR, mini-AMR, random tables; every decoded '
         'graph is also stripped of its markers for the no-raise clause; layout twins (same top and '
         'triple order, a re-entrancy written inverted outside vs. plainly inside the nested node) are '
-        'queried alternately. Non-trivial: >=2 nodes.')
+        'queried alternately; the graph is obtained through interpret, decode, codec.decode, loads and '
+        'iterdecode in turn. Non-trivial: >=2 nodes.')
 PROBES = {'C17': 40}
 ANCHORS = ['penman.layout:node_contexts', 'penman.layout:appears_inverted',
            'penman.layout:get_pushed_variable']
